@@ -1069,6 +1069,12 @@ def mutations(spec, A, items, ch):
                 its = list(items)
                 its[i] = dict(it, t=[forms[ch.pick(len(forms))]])
                 out.append(("strip-value", "bare", toks(its), "CannotParseArgsException"))
+            # ... and a lone dash behind the bare option is not its value either (no token that starts with a dash is)
+            o = opts[it["long"]]
+            forms = ["--" + o["long"]] + (["-" + o["short"]] if o["short"] else [])
+            its = list(items)
+            its[i] = dict(it, t=[forms[ch.pick(len(forms))], "-"])
+            out.append(("strip-value", "bare-then-lone-dash", toks(its), "CannotParseArgsException"))
             break
 
     # 6. a value that does not convert to the declared type
